@@ -64,6 +64,10 @@ func main() {
 		runSearch(out, r, thorough)
 		return
 	}
+	if a["mode"] == "conc" {
+		runConcurrent(out, r, thorough)
+		return
+	}
 	ip := &interp{}
 	run := func(l string) { out.Do(l, func() string { return ip.exec(l) }) }
 	runS := func(l string) string { return out.Do(l, func() string { return ip.exec(l) }) }
